@@ -38,3 +38,28 @@ Print Assumptions C12_checked_arith_in_range.
 Theorem C12_iterator_index_in_range : forall it c, Proofs.IteratorP.R it c -> it_buf it <> [] -> (it_i it < length (it_buf it))%nat.
 Proof. exact iterator_index_in_range. Qed.
 Print Assumptions C12_iterator_index_in_range.
+
+(** EratBig (bucket sieve, wheel 210): a write through buckets_[segment] always has segment < buckets_.size() - when a
+    sieving prime is stored (its multiple index is at most one wheel step, prime/30 * getMaxFactor() + getMaxFactor(),
+    beyond the segment) and for every step of crossOff, for every sieve size 2^log2, every sieving prime and every state;
+    [None] of the model is the out-of-bounds write. *)
+From Coq Require Import Permutation.
+From PS Require Import Model.EratBigM Proofs.EratBigP.
+Theorem C12_eratbig_store_in_bounds : forall log2 b prime idx w, wf log2 b -> 30 <= prime -> w < 384 ->
+  idx <= size log2 - 1 + (prime / 30 * 10 + 10) ->
+  exists b', eb_store log2 b prime idx w = Some b' /\ wf log2 b' /\
+             Permutation (abs_of log2 b') ((prime / 30, idx, w) :: abs_of log2 b).
+Proof. exact eb_store_ok. Qed.
+Print Assumptions C12_eratbig_store_in_bounds.
+
+Theorem C12_eratbig_cross_in_bounds : forall log2 e es rest, wf log2 ((e :: es) :: rest) ->
+  let '(cl, (seg, e')) := eb_step log2 e in
+  exists b', push_at (N.to_nat seg) e' (es :: rest) = Some b' /\ wf log2 b'.
+Proof. exact eb_push_ok. Qed.
+Print Assumptions C12_eratbig_cross_in_bounds.
+
+(** ... and crossOff terminates (every step moves a sieving prime forward) *)
+Theorem C12_eratbig_cross_total : forall log2 n b acc, wf log2 b -> b <> [] -> (N.to_nat (mu log2 b) < n)%nat ->
+  exists cl b', eb_cross n log2 b acc = Some (cl, b').
+Proof. exact eb_cross_total. Qed.
+Print Assumptions C12_eratbig_cross_total.
